@@ -49,3 +49,74 @@ Section SeqSpec.
 
   Definition valid_path (a b : list A) (pts : list (Z * Z)) : bool := valid_from a b 0 0 pts.
 End SeqSpec.
+
+(** * Value level *)
+
+(** shape of a script entry: kept elements are shown once, a replacement pairs equally many elements *)
+Definition edit_shape {A} (e : edit A) : Prop :=
+  match ek e with
+  | KCommon => eold e = enew e
+  | KDelete => enew e = []
+  | KAdd => eold e = []
+  | KReplace => length (eold e) = length (enew e)
+  end.
+
+(** what one entry of a replace payload shows about the pair (o, n) it stands for: a diff carries both
+    sides; starlark.None stands for a pair that compares equal *)
+Definition entry_shows (d : nat) (o n : value) (od : option vdiff) : Prop :=
+  match od with
+  | Some df => dold df = o /\ dnew df = n
+  | None => veq_d d o n = Some true
+  end.
+
+Fixpoint shows_all (d : nat) (os ns : list value) (ds : list (option vdiff)) : Prop :=
+  match os, ns, ds with
+  | o :: os', n :: ns', x :: ds' => entry_shows d o n x /\ shows_all d os' ns' ds'
+  | [], _, [] => True
+  | _, [], [] => True
+  | _, _, _ => False
+  end.
+
+(** how a reported Edit shows the parts of its script entry; [ca] / [cb] are the kinds of the old and the
+    new container, [mk c vs] is the slice of kind [c] holding exactly the elements [vs] *)
+Inductive rendered (d : nat) (ca cb : ckind) : edit value -> sedit -> Prop :=
+| R_common os ns : rendered d ca cb (mkEdit KCommon os ns) (SE KCommon (mk ca os))
+| R_delete os ns : rendered d ca cb (mkEdit KDelete os ns) (SE KDelete (mk ca os))
+| R_add os ns : rendered d ca cb (mkEdit KAdd os ns) (SE KAdd (mk cb ns))
+| R_replace_str os ns :
+    stringlike ca && stringlike cb = true ->
+    rendered d ca cb (mkEdit KReplace os ns) (SRepl [Some (DLit (mk ca os) (mk cb ns))])
+| R_replace os ns ds :
+    stringlike ca && stringlike cb = false ->
+    shows_all d os ns ds ->
+    rendered d ca cb (mkEdit KReplace os ns) (SRepl ds).
+
+(** the value a dict holds for a key *)
+Definition dict_get (k : value) (kvs : list (value * value)) : option value := lookup key_eq k kvs.
+
+(** every edit of a mapping diff is for a key removed, changed or added, with the right kind and values *)
+Definition map_sound (d : nat) (old new : list (value * value)) (edits : list (value * medit)) : Prop :=
+  forall k e, In (k, e) edits ->
+    (exists ov, In (k, ov) old /\ dict_get k new = None /\ e = MDel ov) \/
+    (exists ov nv df, In (k, ov) old /\ dict_get k new = Some nv /\ veq_d d ov nv = Some false /\
+                      e = MRepl df /\ dold df = ov /\ dnew df = nv) \/
+    (exists nv, In (k, nv) new /\ dict_get k old = None /\ e = MAdd nv).
+
+(** and every key removed, changed or added has its edit *)
+Definition map_complete (d : nat) (old new : list (value * value)) (edits : list (value * medit)) : Prop :=
+  (forall k ov, In (k, ov) old -> dict_get k new = None -> In (k, MDel ov) edits) /\
+  (forall k ov nv, In (k, ov) old -> dict_get k new = Some nv -> veq_d d ov nv = Some false ->
+                   exists df, In (k, MRepl df) edits /\ dold df = ov /\ dnew df = nv) /\
+  (forall k nv, In (k, nv) new -> dict_get k old = None -> In (k, MAdd nv) edits).
+
+(** substring test, for "the reason names the key" *)
+Fixpoint is_substr (p s : str) : bool :=
+  has_prefix p s || match s with [] => false | _ :: s' => is_substr p s' end.
+
+(** the two environments differ at a key *)
+Definition env_differs (d : nat) (o n : option value) : Prop :=
+  match o, n with
+  | None, None => False
+  | Some ov, Some nv => veq_d d ov nv = Some false
+  | _, _ => True
+  end.
